@@ -37,9 +37,10 @@ RULE = ("each case: one text generated constructively from the grammar of doc/Gu
         "specification's own rendering; a case is non-trivial when the text has at least two values or one "
         "compound value; distinct = distinct op line")
 ASSUMPTIONS = [
-    "the fix patches fixes/C11-01 … C11-05 are applied to the tree (on top of fixes/C10-*.patch): leading white space / "
+    "the fix patches fixes/C11-01 … C11-06 are applied to the tree (on top of fixes/C10-*.patch): leading white space / "
     "comments in rtosc_scan_arg_vals, numeric test for open-ended ranges in the scanner, no scan of a non-numeric left "
-    "neighbour in the checker, no left neighbour taken from inside a preceding array, nearest step count for float ranges",
+    "neighbour in the checker, no left neighbour taken from inside a preceding array, nearest step count for float ranges, "
+    "args_before in arrays counts argument values",
     "proved (Lean, no bound on the number of values, nesting depth, gaps or characters): checker_scanner_agree, "
     "scan_denotes and whitespace_comment_invariance for sentences whose values are built from: scalars in the "
     "spellings 'i' integers in decimal (with and without the suffix i) and hexadecimal (0x2a, -0x2a, 0x2A, two's "
@@ -1137,6 +1138,7 @@ def g_range(rng, stats, open_end):
             b = rng.randint(-1000, 1000)
         a = b - d
         c = b + n * d
+        g_range.last_end = c
         return ty, ([g_num_of(rng, ty, stats, a)] if with_a else []), g_num_of(rng, ty, stats, b), (None if open_end else g_num_of(rng, ty, stats, c))
     if ty == "c":
         d = rng.choice([1, -1, 2, 3]) if with_a else rng.choice([1, -1])
@@ -1180,9 +1182,22 @@ def g_array(rng, stats, depth):
             rng_toks[-1] = (b"...", "end")
             stats["array_open_range"] = stats.get("array_open_range", 0) + 1
         elems.append(rng_toks)
-        if c is not None and rng.random() < 0.4:
-            if ty in "ihc":
-                elems.append(g_num_of(rng, ty, stats, rng.randint(40, 90)))
+        if c is not None and ty in "ih" and rng.random() < 0.5:
+            # more behind the range: optionally a scalar, then a second range whose step comes from its left
+            # neighbour (the scalar, or the last value of the first range)
+            last = g_range.last_end
+            if rng.random() < 0.4:
+                last = rng.randint(40, 90)
+                elems.append(g_num_of(rng, ty, stats, last))
+            if rng.random() < 0.7:
+                stats["array_two_ranges"] = stats.get("array_two_ranges", 0) + 1
+                d2 = rng.choice([1, -1, 2, 3, -5])
+                n2 = rng.randint(1, 5)
+                b2 = last + d2
+                t_b2 = g_num_of(rng, ty, stats, b2)
+                elems.append(t_b2[:-1] + [(t_b2[-1][0], "dots"), (b"...", "opt")] + g_num_of(rng, ty, stats, b2 + n2 * d2))
+        elif c is not None and ty in "ihc" and rng.random() < 0.4:
+            elems.append(g_num_of(rng, ty, stats, rng.randint(40, 90)))
     elif r < 0.4 and depth < 1 and n:
         for _ in range(min(n, 3)):
             elems.append(g_array(rng, stats, depth + 1))
@@ -1467,8 +1482,7 @@ def sp_range(rng, stats):
         d = rng.choice([1000, -1000]) if not with_a else rng.choice([1, 2, 5, 25, 125, 333, 1000, 1500, -500, -100, 3330, 10])
         b = rng.randint(-5000, 5000)
     c = b + n * d
-    if ty in "fd" and rng.random() < 0.4:
-        c += rng.randint(-8, 8) // 10 * 1   # exact or off by a little; float off-grid ends only with big steps
+    sp_range.last = (ty, c, num_tok)
     if with_a:
         out.append(("V" + num_tok(b - d)[0], num_tok(b - d)[1]))
     eb, tb = num_tok(b)
@@ -1489,7 +1503,18 @@ def sp_array(rng, stats, depth):
             pass
         rg = sp_range(rng, stats)
         elems = rg
-        if rng.random() < 0.5:
+        ty0, end0, num_tok0 = sp_range.last
+        if ty0 in "ihc" and rng.random() < 0.35:
+            # more behind the range: a second range; its step comes from the last value of the first one
+            d2 = rng.choice([1, -1, 2, 3]) if ty0 == "c" else rng.choice([1, -1, 2, 3, -5])
+            n2 = rng.randint(1, 4)
+            b2, c2 = end0 + d2, end0 + d2 + n2 * d2
+            if ty0 != "c" or all(33 <= x <= 126 and x not in (39, 92) for x in (b2, c2)):
+                eb, tb = num_tok0(b2)
+                ec, tc = num_tok0(c2)
+                elems = rg + [("G" + eb + "~" + ec, tb + sp_blank(rng) + b"..." + sp_blank(rng) + tc)]
+                stats["spec_array_two_ranges"] = stats.get("spec_array_two_ranges", 0) + 1
+        elif rng.random() < 0.5:
             # open end: b ... ]   (drop c)
             enc, text = rg[-1]
             eb = enc[1:].split("~")[0]
